@@ -21,7 +21,7 @@ func (c18) Rule() string {
 func (c18) Exhaustive(string) string { return "" }
 func (c18) Runs(tier string) int64 {
 	if tier == "thorough" {
-		return 1200000
+		return 8000000
 	}
 	return 40000
 }
